@@ -11,6 +11,7 @@ use std::path::PathBuf;
 use std::time::Duration;
 
 mod climodel;
+mod bytes_all;
 
 fn write_lcov(rs: &[(PathBuf, PathBuf, CovResult)], path: &std::path::Path) -> Vec<u8> {
     output_lcov(rs, Some(path), false);
@@ -134,6 +135,7 @@ pub fn run(rep: &mut Report) {
         }
     }
     cli_chains(rep, &mut rng);
+    bytes_all::run(rep);
 }
 
 fn cli_chains(rep: &mut Report, rng: &mut Rng) {
@@ -342,6 +344,9 @@ fn restrip_finding(reports: &[String], used: &[&str]) -> Option<&'static str> {
 
 pub fn replay(rep: &mut Report, case: &serde_json::Value) {
     let c = if case.get("case").is_some() { &case["case"] } else { case };
+    if c["op"] == "c05.bytes_all" {
+        return bytes_all::replay(rep, c);
+    }
     if let Some(h) = c["written_hex"].as_str() {
         let bytes = unhex(h);
         let got = show_outcome(&guarded(move || parse_lcov(bytes, true)));
